@@ -127,7 +127,14 @@ Section Closing.
     apply pres_bind; [apply kpres_stream_closed|intros ?]. apply pres_modify. intros p. apply libinv_KOff; reflexivity.
   Qed.
   Lemma kpres_handle_closed : kpres KOff handle_closed.
-  Proof. unfold handle_closed. apply pres_bind; [apply pres_get|intro p0]. destruct (p_stream_live p0); [apply kpres_close_stream|apply pres_ret]. Qed.
+  Proof.
+    unfold handle_closed.
+    apply pres_bind; [apply pres_modify; intros p; apply libinv_KOff; reflexivity|intros ?].
+    apply pres_bind; [apply pres_get|intro p0].
+    apply pres_bind; [destruct (p_stream_live p0); [apply kpres_close_stream|apply pres_ret]|intros ?].
+    apply pres_bind; [apply pres_modify; intros p; apply libinv_KOff; reflexivity|intros ?].
+    apply pres_emit; discriminate.
+  Qed.
   Lemma kpres_srv_send e : kpres KOff (srv_send e).
   Proof.
     unfold srv_send. apply pres_bind; [apply pres_emit; discriminate|intros ?].
@@ -317,7 +324,8 @@ Section Closing.
       apply pres_bind; [apply pres_emit; discriminate|intros ?].
       apply pres_bind; [apply pres_modify; intros q; apply libinv_KOff; reflexivity|intros ?].
       apply handle_events_koff.
-    - apply pres_kstep_ok; [|exact Hp]. apply kpres_handle_closed.
+    - apply pres_kstep_ok; [|exact Hp]. cbn [proto_step].
+      apply pres_bind; [apply kpres_handle_closed|intros ?; apply resume_koff].
     - cbn [proto_step].
       assert (A : kpres KOff (match p_slot p with
              | SlotHttp _ => http_app_send (c_http cfg) get_h put_h (stream_send cfg) m
